@@ -53,6 +53,8 @@ pub(super) struct User {
     pub(super) last_activity: u64,
     pub(super) signon: u64,
     pub(super) history_entry: NickHistoryEntry,
+    #[cfg(simple_irc_server_verif)]
+    pub(super) verif_key: String,
 }
 
 impl User {
@@ -87,6 +89,8 @@ impl User {
                 realname: user_state.realname.as_ref().unwrap().clone(),
                 signon: now_ts,
             },
+            #[cfg(simple_irc_server_verif)]
+            verif_key: user_state.verif_key.clone(),
         }
     }
 
@@ -109,7 +113,7 @@ impl User {
     ) -> Result<(), SendError<String>> {
         #[cfg(simple_irc_server_verif)]
         if !self.sender.is_closed() {
-            super::verif::enq();
+            super::verif::enq_to(&self.verif_key);
         }
         self.sender.send(msg.to_string_with_source(source))
     }
@@ -121,7 +125,7 @@ impl User {
     ) -> Result<(), SendError<String>> {
         #[cfg(simple_irc_server_verif)]
         if !self.sender.is_closed() {
-            super::verif::enq();
+            super::verif::enq_to(&self.verif_key);
         }
         self.sender.send(format!(":{} {}", source, t))
     }
@@ -504,6 +508,8 @@ pub(crate) struct ConnUserState {
     pub(super) password: Option<String>,
     pub(super) authenticated: bool,
     pub(super) registered: bool,
+    #[cfg(simple_irc_server_verif)]
+    pub(super) verif_key: String,
 }
 
 impl ConnUserState {
@@ -520,6 +526,8 @@ impl ConnUserState {
             password: None,
             authenticated: false,
             registered: false,
+            #[cfg(simple_irc_server_verif)]
+            verif_key: String::new(),
         }
     }
 
